@@ -77,6 +77,30 @@ CLAIMED = {
          "Decides structurally: every tag has encoder and decoder with the same field layout; malformed input is rejected (eof/irregular consumed, no allocation by decoded length); decoding recursion is cut by checked reads; big integers are narrowed only under an explicit range test. Value equality after a round trip is not decided.",
          "Encoders and stringify recurse over in-memory values (table entries with reasons).",
          "DESIGN.md §4 C25"),
+ "C07": ("guard and ordering analysis (A2/A3) of the EIP-155 state transition",
+         "Decides for all transactions: nonce mismatches are rejected before gas is bought and before any state mutation, errors mark the block cache failed, every path after preCheck increments the sender nonce exactly once (evm.create increments before init code), the fee and UsedGas are computed from gasUsed() after the refund, the fee credit is on every path. ONG conservation as arithmetic and the gasLimit*gasPrice+value bound are not decided.",
+         "CheckNonce enabled for block execution; vm/evm.StateDB interface methods classified as mutators by table.",
+         "DESIGN.md §4 C07"),
+ "C17": ("sibling-agreement analysis (A11) of the writers of Transaction.SignedAddr + zero-tail lint + purity of address derivation",
+         "Decides necessary conditions for 'same bytes, same signer set on every node': only three functions assign the signer set, it is built by append from an empty slice, the derivation functions use no process-wide mutable state, and the validator and the sealed-block fallback must derive accounts the same way — which they do not: one known finding (confirmed with an unsorted 2-of-2 script). Equality of derived addresses as values is not decided.",
+         "Address constructors are recognised by result type common.Address.",
+         "DESIGN.md §4 C17"),
+ "C20": ("writer/reader token-sequence agreement on the syntax tree (A6), hash field coverage (A5), guard analysis of Block.Deserialization (A2)",
+         "Decides for all byte strings: Header/Block layouts agree between Serialization and Deserialization; Header.Hash covers every field except signer list, signatures and cache; duplicate transactions are rejected through a set keyed by the tx hash into which every accepted hash is inserted; acceptance requires the header's transaction root to equal ComputeMerkleRoot of the decoded hashes. Byte-exact re-encoding of public keys is not decided.",
+         "Token abstraction of sink/source calls; helper methods inlined to depth 2.",
+         "DESIGN.md §4 C20"),
+ "C22": ("guard analysis (A2) of AddressFromBase58",
+         "Decides the rejection clause for all strings: acceptance requires that re-encoding the decoded address reproduces the input string, exact payload length and version byte. That every address's own encoding decodes is behaviour of base58/big.Int and is not decided.",
+         "ToBase58 is deterministic.",
+         "DESIGN.md §4 C22"),
+ "C23": ("guard and ordering analysis (A2/A3) of script building and parsing",
+         "Decides for all key sets/scripts: multi-sig parameters validated before building/accepting, keys sorted before emission and the sorted list is what is emitted (order-free address), scripts accepted only after ExpectEOF and key-count equality. parse(build(x)) == x as a value identity is not decided.",
+         "keypair.SortPublicKeys is a total order on keys.",
+         "DESIGN.md §4 C23"),
+ "C33": ("guard analysis (A2) with all-checks-fail interpretation + sibling rule (A11) on header_sync.VerifyHeader",
+         "Decides for all side-chain headers: acceptance requires the 2/3 threshold on the listed bookkeepers, membership of every listed key, pairwise distinct keys (a repeated key aborts), and VerifyMultiSignature over the header's hash/keys/signatures with threshold = number listed; headers are stored only after verification. A genuine defect (repeated bookkeeper accepted) found by the distinctness rule was repaired.",
+         "Cryptographic soundness of signature verification.",
+         "DESIGN.md §4 C33"),
 }
 
 NOT_APPLICABLE = {
